@@ -14,6 +14,8 @@ Streams
   unstring    string annotations: a quoted operator expression in every operand slot of every operator
               and in the usual typing wrappers (Literal through every accepted spelling keeps its
               arguments quoted), through astutils.unstring_annotation
+  augassign   `X = first; X <op>= rhs` (all 13 operators, chains, module and class level) through the real
+              astbuilder: the stored synthetic BinOp rendered by the real colorizer
   sequence    the same string-annotation text used several times (functions, modules, attribute) in
               different contexts and orders, built from text and rendered as the templates do, in
               documentation order and in reverse order
@@ -1395,6 +1397,95 @@ def sequence_stream(ctx: Ctx) -> None:
     ctx.compare("pyval-sequence", reqs, impls, pay)
 
 
+# --------------------------------------------------------------------------- augmented assignments (builder-made BinOp)
+
+AUG_OPS = {"Add": "+=", "Sub": "-=", "Mult": "*=", "MatMult": "@=", "Div": "/=", "Mod": "%=", "Pow": "**=",
+           "LShift": "<<=", "RShift": ">>=", "BitOr": "|=", "BitXor": "^=", "BitAnd": "&=", "FloorDiv": "//="}
+
+
+def augassign_stream(ctx: Ctx) -> None:
+    """`X = first` followed by `X <op>= rhs` (and chains of them), at module and class level, through
+    the real astbuilder: `_storeAttrValue` builds a synthetic BinOp(first, op, rhs) whose operands still
+    belong to their statements.  `attr.value` as the builder stored it is rendered by the real colorizer
+    (inline, and with the constant-value configuration); expected = the BinOp built independently."""
+    from pydoctor import model
+    from pydoctor.epydoc.markup._pyval_repr import colorize_pyval, colorize_inline_pyval
+    from pydoctor.node2stan import gettext
+    native = [f for f in OP_FORMS if f.cat in ("unary", "binary", "bool")]
+    operands: List[str] = ["a", "100"] + [depth1(f, leaf_names()) for f in native] + \
+        ["x < y", "p if q else r", "[u, v]", "(s, t)", "f(n)", "m[k]"]
+    cases: List[List[Tuple[str, str]]] = []          # [(first, ''), (rhs, opname), (rhs2, opname2)…]
+    for opn in AUG_OPS:
+        for e1 in operands:
+            for e2 in operands:
+                cases.append([(e1, ""), (e2, opn)])
+    if ctx.quick:
+        keep = [c for c in cases if c[0][0] in ("a", "a + b", "a ** b", "-a", "a or b") or c[1][0] in ("a", "a - b", "a * b")]
+        rest = [c for c in cases if c not in keep]
+        ctx.rng.shuffle(rest)
+        cases = keep + rest[:1500]
+    for _ in range(300 if ctx.quick else 4000):      # chains of several augmented assignments
+        steps = [(ctx.rng.choice(operands), "")]
+        for _k in range(ctx.rng.randint(2, 3)):
+            steps.append((ctx.rng.choice(operands), ctx.rng.choice(list(AUG_OPS))))
+        cases.append(steps)
+    cases.append([("['x']", ""), ("['y', 'z']", "Add")])          # __all__-like lists
+    cases.append([("['x']", ""), ("['y']", "Add"), ("other.names", "Add")])
+    reqs, impls, pay = [], [], []
+    CH = 120
+    for base in range(0, len(cases), CH):
+        chunk = cases[base:base + CH]
+        lines_mod: List[str] = []
+        lines_cls: List[str] = ["class K:"]
+        for i, steps in enumerate(chunk):
+            for (e, opn) in steps:
+                stmt = "V%d %s %s" % (i, AUG_OPS[opn] if opn else "=", e)
+                lines_mod.append(stmt)
+                lines_cls.append("    " + stmt)
+        src = "\n".join(lines_mod + lines_cls) + "\n"
+        system = model.System()
+        b = system.systemBuilder(system)
+        b.addModuleString(src, "m")
+        b.buildModules()
+        mod = system.allobjects["m"]
+        for where, holder in (("module", mod), ("class", mod.contents["K"])):
+            for i, steps in enumerate(chunk):
+                attr = holder.contents.get("V%d" % i)
+                if attr is None or getattr(attr, "value", None) is None:
+                    ctx.count("augassign:not-an-attribute")
+                    continue
+                # expected: ((first op1 rhs1) op2 rhs2) …, built independently of the builder
+                exp: ast.expr = ast.parse(steps[0][0], mode="eval").body
+                for (e, opn) in steps[1:]:
+                    exp = ast.BinOp(left=exp, op=getattr(ast, opn)(), right=ast.parse(e, mode="eval").body)
+                esrc = ast.unparse(exp)
+                for cfg in ((0, 1, False), (80, 7, True)):
+                    try:
+                        r = colorize_inline_pyval(attr.value) if cfg == (0, 1, False) else \
+                            colorize_pyval(attr.value, linelen=cfg[0], maxlines=cfg[1])
+                        ans = "ok %d %s" % (1 if r.is_complete else 0, enc("".join(gettext(r.to_node()))))
+                    except Exception as ex:
+                        r, ans = None, "raise " + type(ex).__name__
+                    tree2 = ast.parse(esrc, mode="eval").body
+                    try:
+                        reqs.append("pyval render %d %d %d %s" % (cfg[0], cfg[1], 1 if cfg[2] else 0, " ".join(etoks(tree2))))
+                        impls.append(ans)
+                        pay.append({"statements": ["V %s %s" % (AUG_OPS[o] if o else "=", e) for e, o in steps],
+                                    "where": where, "source": esrc, "linelen": cfg[0], "maxlines": cfg[1],
+                                    "linebreakok": cfg[2]})
+                    except Skip:
+                        pass
+                    ctx.case("A|%s|%r|%r" % (where, steps, cfg), nontrivial(tree2), None)
+                    ctx.count("stream:augassign")
+                    known = {f["signature"] for f in ctx.failures}
+                    oracle(ctx, esrc, tree2, ans, r, cfg)
+                    for f in ctx.failures:            # a failure first seen here: say which statements made the value
+                        if f["signature"] not in known:
+                            f["input"] = dict(f["input"], where=where,
+                                              statements=["V %s %s" % (AUG_OPS[o] if o else "=", e) for e, o in steps])
+    ctx.compare("pyval-augassign", reqs, impls, pay)
+
+
 # --------------------------------------------------------------------------- run
 
 def run(ctx: Ctx) -> None:
@@ -1463,6 +1554,8 @@ def run(ctx: Ctx) -> None:
     unstring_stream(ctx)
     # 9. the same string annotation used several times, rendered in the real order
     sequence_stream(ctx)
+    # 10. values the builder assembles from several statements (augmented assignments)
+    augassign_stream(ctx)
     ctx.extra["forms"] = len(FORMS)
 
 
